@@ -9,6 +9,7 @@ package marshal // import "mellium.im/xmpp/internal/marshal"
 import (
 	"bytes"
 	"encoding/xml"
+	"fmt"
 
 	"mellium.im/xmlstream"
 )
@@ -92,19 +93,41 @@ func EncodeXML(w xmlstream.TokenWriter, v interface{}) error {
 // If the stream is an xmlstream.Flusher, EncodeXMLElement calls Flush before
 // returning.
 func EncodeXMLElement(w xmlstream.TokenWriter, v interface{}, start xml.StartElement) error {
+	var d *xml.Decoder
 	if wt, ok := v.(xmlstream.WriterTo); ok {
-		_, err := wt.WriteXML(w)
-		return err
+		var b bytes.Buffer
+		e := xml.NewEncoder(&b)
+		if _, err := wt.WriteXML(e); err != nil {
+			return err
+		}
+		if err := e.Flush(); err != nil {
+			return err
+		}
+		d = xml.NewDecoder(&b)
+	} else {
+		var err error
+		d, err = tokenDecoder(v)
+		if err != nil {
+			return err
+		}
 	}
-	d, err := tokenDecoder(v)
+	r := rawTokenReader{Decoder: d}
+	tok, err := r.Token()
 	if err != nil {
 		return err
 	}
-	_, err = xmlstream.Copy(w, rawTokenReader{Decoder: d})
-	if err != nil {
+	if _, ok := tok.(xml.StartElement); !ok {
+		return fmt.Errorf("marshal: expected a start element, got %T", tok)
+	}
+	if err = w.EncodeToken(start); err != nil {
 		return err
 	}
-
+	if _, err = xmlstream.Copy(w, xmlstream.Inner(r)); err != nil {
+		return err
+	}
+	if err = w.EncodeToken(start.End()); err != nil {
+		return err
+	}
 	if wf, ok := w.(xmlstream.Flusher); ok {
 		return wf.Flush()
 	}
